@@ -18,7 +18,85 @@ variable {α : Type}
 allocated arrays, and is preserved by every operation (repaired `Clone`). -/
 theorem step_preserves_owned (grow : Nat → Nat) (hg : ∀ n, grow n > n) (pad : α) (st : State α)
     (h : Owned st) (op : Op α) : Owned (step true grow pad st op).1 := by
-  sorry
+  rw [owned_iff] at h ⊢
+  obtain ⟨hn, ht, hb⟩ := h
+  cases op with
+  | createBlock t =>
+    cases hs : st.tokens[t]? with
+    | none => simp only [step, hs]; exact ⟨hn, ht, hb⟩
+    | some s =>
+      simp only [step, hs, cloneDeep, if_true]
+      have hsv := ht s (List.mem_of_getElem? hs)
+      have e := ext_append st.heap [read st.heap s]
+      refine ⟨?_, fun s' hs' => e.valid (ht s' hs'), ?_⟩
+      · rw [List.map_append, ← List.append_assoc]
+        simp only [List.map_cons, List.map_nil]
+        rw [List.nodup_append]
+        refine ⟨hn, by simp, ?_⟩
+        intro a ha b hb'
+        rw [List.mem_singleton] at hb'
+        subst hb'
+        intro hab
+        subst hab
+        exact fresh_not_mem ht hb (Nat.le_refl _) ha
+      · intro b hb'
+        rw [List.mem_append, List.mem_singleton] at hb'
+        rcases hb' with hb' | rfl
+        · exact e.valid (hb b hb')
+        · exact cloneDeep_valid hsv
+  | addSymbol b x =>
+    cases hs : st.builders[b]? with
+    | none => simp only [step, hs]; exact ⟨hn, ht, hb⟩
+    | some p =>
+      obtain ⟨s, start⟩ := p
+      simp only [step, hs]
+      have hsv : Valid st.heap s := hb (s, start) (List.mem_of_getElem? hs)
+      have a := append_spec grow hg pad hsv x []
+      refine ⟨?_, fun s' hs' => a.valid_of (ht s' hs'), ?_⟩
+      · rw [List.map_set, append_set_eq]
+        rcases a.arr with ⟨he, _⟩ | hfresh
+        · rw [set_of_getElem?]
+          · exact hn
+          · rw [List.getElem?_append_right (Nat.le_add_right _ _), Nat.add_sub_cancel_left,
+              List.getElem?_map, hs]
+            simp [he]
+        · exact nodup_set_of_not_mem hn (fresh_not_mem ht hb hfresh)
+      · intro b' hb'
+        rcases List.mem_or_eq_of_mem_set hb' with hb' | rfl
+        · exact a.valid_of (hb b' hb')
+        · exact a.valid
+  | getBlockID t x =>
+    cases hs : st.tokens[t]? with
+    | none => simp only [step, hs]; exact ⟨hn, ht, hb⟩
+    | some s =>
+      simp only [step, hs, cloneDeep, if_true]
+      have hsv := ht s (List.mem_of_getElem? hs)
+      have a := append_spec grow hg pad (cloneDeep_valid hsv) x []
+      have e := a.ext (ext_append st.heap [read st.heap s]) (Nat.le_refl _)
+      exact ⟨hn, fun s' hs' => e.valid (ht s' hs'), fun b hb' => e.valid (hb b hb')⟩
+  | appendToken t b =>
+    cases hs : st.tokens[t]? with
+    | none => simp only [step, hs]; exact ⟨hn, ht, hb⟩
+    | some s =>
+      cases hbs : st.builders[b]? with
+      | none => simp only [step, hs, hbs]; exact ⟨hn, ht, hb⟩
+      | some p =>
+        obtain ⟨bs, start⟩ := p
+        simp only [step, hs, hbs, cloneDeep, if_true]
+        have hsv := ht s (List.mem_of_getElem? hs)
+        have a := appFold_spec grow hg pad (cloneDeep_valid hsv) [] ((read st.heap bs).drop start)
+        have e := a.ext (ext_append st.heap [read st.heap s]) (Nat.le_refl _)
+        have hfresh := a.fresh (ext_append st.heap [read st.heap s]) (Nat.le_refl _)
+        refine ⟨?_, ?_, fun b hb' => e.valid (hb b hb')⟩
+        · rw [List.map_append, List.append_assoc]
+          simp only [List.map_cons, List.map_nil, List.singleton_append]
+          rw [List.perm_middle.nodup_iff, List.nodup_cons]
+          exact ⟨fresh_not_mem ht hb hfresh, hn⟩
+        · intro s' hs'
+          rw [List.mem_append, List.mem_singleton] at hs'
+          rcases hs' with hs' | rfl
+          · exact e.valid (ht s' hs')
+          · exact a.valid
 
 /-- **C08 (frame).** With the repaired `Clone`, no operation changes what any live token
 reads: its slice header is still the same and the cells it views hold the same values. -/
@@ -26,7 +104,51 @@ theorem family_frame (grow : Nat → Nat) (hg : ∀ n, grow n > n) (pad : α) (s
     (h : Owned st) (op : Op α) (i : Nat) (s : Slice) (hs : st.tokens[i]? = some s) :
     (step true grow pad st op).1.tokens[i]? = some s ∧
     read (step true grow pad st op).1.heap s = read st.heap s := by
-  sorry
+  rw [owned_iff] at h
+  obtain ⟨hn, ht, hb⟩ := h
+  have hsv := ht s (List.mem_of_getElem? hs)
+  cases op with
+  | createBlock t =>
+    cases hs' : st.tokens[t]? with
+    | none => simp only [step, hs']; exact ⟨hs, trivial⟩
+    | some s0 =>
+      simp only [step, hs', cloneDeep, if_true]
+      exact ⟨hs, ((ext_append st.heap [read st.heap s0]).2 s hsv.1).1⟩
+  | addSymbol b x =>
+    cases hs' : st.builders[b]? with
+    | none => simp only [step, hs']; exact ⟨hs, trivial⟩
+    | some p =>
+      obtain ⟨bs, start⟩ := p
+      simp only [step, hs']
+      have a := append_spec grow hg pad (hb _ (List.mem_of_getElem? hs')) x []
+      refine ⟨hs, a.frame s hsv.1 (Or.inl ?_)⟩
+      rw [List.nodup_append] at hn
+      exact hn.2.2 s.arr (List.mem_map.mpr ⟨s, List.mem_of_getElem? hs, rfl⟩) bs.arr
+        (List.mem_map.mpr ⟨(bs, start), List.mem_of_getElem? hs', rfl⟩)
+  | getBlockID t x =>
+    cases hs' : st.tokens[t]? with
+    | none => simp only [step, hs']; exact ⟨hs, trivial⟩
+    | some s0 =>
+      simp only [step, hs', cloneDeep, if_true]
+      have hsv0 := ht s0 (List.mem_of_getElem? hs')
+      have a := append_spec grow hg pad (cloneDeep_valid hsv0) x []
+      have e := a.ext (ext_append st.heap [read st.heap s0]) (Nat.le_refl _)
+      exact ⟨hs, (e.2 s hsv.1).1⟩
+  | appendToken t b =>
+    cases hs' : st.tokens[t]? with
+    | none => simp only [step, hs']; exact ⟨hs, trivial⟩
+    | some s0 =>
+      cases hbs : st.builders[b]? with
+      | none => simp only [step, hs', hbs]; exact ⟨hs, trivial⟩
+      | some p =>
+        obtain ⟨bs, start⟩ := p
+        simp only [step, hs', hbs, cloneDeep, if_true]
+        have hsv0 := ht s0 (List.mem_of_getElem? hs')
+        have a := appFold_spec grow hg pad (cloneDeep_valid hsv0) [] ((read st.heap bs).drop start)
+        have e := a.ext (ext_append st.heap [read st.heap s0]) (Nat.le_refl _)
+        refine ⟨?_, (e.2 s hsv.1).1⟩
+        rw [List.getElem?_append_left (List.getElem?_eq_some_iff.mp hs).1]
+        exact hs
 
 /-- Likewise no operation changes what any OTHER live builder holds. -/
 theorem builders_frame (grow : Nat → Nat) (hg : ∀ n, grow n > n) (pad : α) (st : State α)
@@ -34,7 +156,53 @@ theorem builders_frame (grow : Nat → Nat) (hg : ∀ n, grow n > n) (pad : α) 
     (hne : ∀ x, op ≠ .addSymbol j x) :
     (step true grow pad st op).1.builders[j]? = some b ∧
     read (step true grow pad st op).1.heap b.1 = read st.heap b.1 := by
-  sorry
+  rw [owned_iff] at h
+  obtain ⟨hn, ht, hbl⟩ := h
+  have hbv := hbl b (List.mem_of_getElem? hb)
+  cases op with
+  | createBlock t =>
+    cases hs' : st.tokens[t]? with
+    | none => simp only [step, hs']; exact ⟨hb, trivial⟩
+    | some s0 =>
+      simp only [step, hs', cloneDeep, if_true]
+      refine ⟨?_, ((ext_append st.heap [read st.heap s0]).2 b.1 hbv.1).1⟩
+      rw [List.getElem?_append_left (List.getElem?_eq_some_iff.mp hb).1]
+      exact hb
+  | addSymbol b' x =>
+    have hj : b' ≠ j := fun he => hne x (by rw [he])
+    cases hs' : st.builders[b']? with
+    | none => simp only [step, hs']; exact ⟨hb, trivial⟩
+    | some p =>
+      obtain ⟨bs, start⟩ := p
+      simp only [step, hs']
+      have a := append_spec grow hg pad (hbl _ (List.mem_of_getElem? hs')) x []
+      refine ⟨?_, a.frame b.1 hbv.1 (Or.inl ?_)⟩
+      · rw [List.getElem?_set_ne hj]
+        exact hb
+      · rw [List.nodup_append] at hn
+        exact map_nodup_ne hn.2.1 hb hs' (Ne.symm hj)
+  | getBlockID t x =>
+    cases hs' : st.tokens[t]? with
+    | none => simp only [step, hs']; exact ⟨hb, trivial⟩
+    | some s0 =>
+      simp only [step, hs', cloneDeep, if_true]
+      have hsv0 := ht s0 (List.mem_of_getElem? hs')
+      have a := append_spec grow hg pad (cloneDeep_valid hsv0) x []
+      have e := a.ext (ext_append st.heap [read st.heap s0]) (Nat.le_refl _)
+      exact ⟨hb, (e.2 b.1 hbv.1).1⟩
+  | appendToken t b' =>
+    cases hs' : st.tokens[t]? with
+    | none => simp only [step, hs']; exact ⟨hb, trivial⟩
+    | some s0 =>
+      cases hbs : st.builders[b']? with
+      | none => simp only [step, hs', hbs]; exact ⟨hb, trivial⟩
+      | some p =>
+        obtain ⟨bs, start⟩ := p
+        simp only [step, hs', hbs, cloneDeep, if_true]
+        have hsv0 := ht s0 (List.mem_of_getElem? hs')
+        have a := appFold_spec grow hg pad (cloneDeep_valid hsv0) [] ((read st.heap bs).drop start)
+        have e := a.ext (ext_append st.heap [read st.heap s0]) (Nat.le_refl _)
+        exact ⟨hb, (e.2 b.1 hbv.1).1⟩
 
 /-- Lifted to every history: after any sequence of operations every token that was live
 before still reads what it read before. -/
@@ -42,7 +210,12 @@ theorem family_frame_history (grow : Nat → Nat) (hg : ∀ n, grow n > n) (pad 
     (h : Owned st) (ops : List (Op α)) (i : Nat) (s : Slice) (hs : st.tokens[i]? = some s) :
     (run true grow pad st ops).tokens[i]? = some s ∧
     read (run true grow pad st ops).heap s = read st.heap s := by
-  sorry
+  induction ops generalizing st with
+  | nil => exact ⟨hs, rfl⟩
+  | cons op ops ih =>
+    have f := family_frame grow hg pad st h op i s hs
+    have r := ih (step true grow pad st op).1 (step_preserves_owned grow hg pad st h op) f.1
+    exact ⟨r.1, r.2.trans f.2⟩
 
 /-- **Siblings.** Two builders created from the same token, each adding its own symbol,
 each hold exactly the parent's symbols followed by their own. -/
@@ -52,7 +225,45 @@ theorem siblings_independent (grow : Nat → Nat) (hg : ∀ n, grow n > n) (pad 
     let st' := run true grow pad st [.createBlock t, .createBlock t, .addSymbol n x, .addSymbol (n + 1) y]
     (∃ b1, st'.builders[n]? = some b1 ∧ read st'.heap b1.1 = read st.heap s ++ [x]) ∧
     (∃ b2, st'.builders[n + 1]? = some b2 ∧ read st'.heap b2.1 = read st.heap s ++ [y]) := by
-  sorry
+  intro n st'
+  -- first `createBlock`
+  let st1 := (step true grow pad st (.createBlock t)).1
+  have o1 : Owned st1 := step_preserves_owned grow hg pad st h _
+  obtain ⟨b1, hb1, hr1⟩ := step_createBlock_spec grow pad (st := st) hs
+  have f1 : st1.tokens[t]? = some s ∧ read st1.heap s = read st.heap s :=
+    family_frame grow hg pad st h _ t s hs
+  have hb1n : st1.builders[n]? = some (b1, s.len) := by
+    show (step true grow pad st (.createBlock t)).1.builders[n]? = _
+    rw [hb1, List.getElem?_append_right (Nat.le_refl _)]
+    simp
+  have hl1 : st1.builders.length = n + 1 := by
+    show (step true grow pad st (.createBlock t)).1.builders.length = _
+    rw [hb1, List.length_append]
+    rfl
+  -- second `createBlock`
+  let st2 := (step true grow pad st1 (.createBlock t)).1
+  have o2 : Owned st2 := step_preserves_owned grow hg pad st1 o1 _
+  obtain ⟨b2, hb2, hr2⟩ := step_createBlock_spec grow pad (st := st1) f1.1
+  have bf2 : st2.builders[n]? = some (b1, s.len) ∧ read st2.heap b1 = read st1.heap b1 :=
+    builders_frame grow hg pad st1 o1 _ n (b1, s.len) hb1n (fun _ he => by cases he)
+  have hb2n : st2.builders[n + 1]? = some (b2, s.len) := by
+    show (step true grow pad st1 (.createBlock t)).1.builders[n + 1]? = _
+    rw [hb2, List.getElem?_append_right (Nat.le_of_eq hl1), hl1]
+    simp
+  -- `addSymbol n x`
+  let st3 := (step true grow pad st2 (.addSymbol n x)).1
+  have o3 : Owned st3 := step_preserves_owned grow hg pad st2 o2 _
+  obtain ⟨b1', h3⟩ := step_addSymbol_spec grow hg pad o2 bf2.1 x
+  have bf3 : st3.builders[n + 1]? = some (b2, s.len) ∧ read st3.heap b2 = read st2.heap b2 :=
+    builders_frame grow hg pad st2 o2 _ (n + 1) (b2, s.len) hb2n
+      (fun _ he => by injection he with h1 _; omega)
+  -- `addSymbol (n + 1) y`
+  obtain ⟨b2', h4⟩ := step_addSymbol_spec grow hg pad o3 bf3.1 y
+  have bf4 := builders_frame grow hg pad st3 o3 (.addSymbol (n + 1) y) n (b1', s.len) h3.1
+    (fun _ he => by injection he with h1 _; omega)
+  refine ⟨⟨(b1', s.len), bf4.1, ?_⟩, ⟨(b2', s.len), h4.1, ?_⟩⟩
+  · exact bf4.2.trans (h3.2.trans (by rw [bf2.2, hr1]))
+  · exact h4.2.trans (by rw [bf3.2, hr2, f1.2])
 
 /-- D4, pinned: with the header copy and spare capacity the second sibling's symbol
 overwrites the first's. A table of 3 symbols in an array of capacity 4; two builders;
@@ -64,17 +275,17 @@ def d4Ops : List (Op String) := [.createBlock 0, .createBlock 0, .addSymbol 0 "f
 theorem header_clone_breaks_siblings :
     let st' := run false (fun n => 2 * n + 1) "_" d4State d4Ops
     (st'.builders[0]?.map fun b => read st'.heap b.1) = some ["a", "b", "c", "bar"] := by
-  sorry
+  rfl
 
 /-- …whereas the repaired clone keeps them apart on the same history. -/
 theorem deep_clone_keeps_siblings :
     let st' := run true (fun n => 2 * n + 1) "_" d4State d4Ops
     (st'.builders[0]?.map fun b => read st'.heap b.1) = some ["a", "b", "c", "foo"] ∧
     (st'.builders[1]?.map fun b => read st'.heap b.1) = some ["a", "b", "c", "bar"] := by
-  sorry
+  exact ⟨rfl, rfl⟩
 
 /-- Non-vacuity: the D4 start state satisfies the ownership invariant. -/
 theorem d4State_owned : Owned d4State := by
-  sorry
+  simp [Owned, d4State, cap]
 
 end Biscuit.C08
